@@ -112,6 +112,11 @@ def build(case: dict, d: Path) -> dict:
         (root / ".reuse" / "dep5").write_text(DEP5_OK)
         (root / "REUSE.toml").write_text("version = 1\n")
         info["config"] = "dep5"
+    elif o == "dep5_and_nested_toml":        # the conflict does not depend on where the REUSE.toml lies
+        (root / ".reuse").mkdir()
+        (root / ".reuse" / "dep5").write_text(DEP5_OK)
+        (root / "src" / "REUSE.toml").write_text("version = 1\n")
+        info["config"] = "dep5"
     elif o == "dep5_bad_expression":
         (root / ".reuse").mkdir()
         (root / ".reuse" / "dep5").write_text(DEP5_OK.replace("License: MIT", "License: MIT AND AND"))
@@ -228,7 +233,8 @@ def run(ctx: core.Ctx) -> int:
               "dep5_syntax": "invalid", "dep5_not_utf8": "invalid", "dep5_and_toml": "invalid", "dep5_bad_expression": "grey",
               "covered_nul_bytes": "valid", "covered_not_utf8": "valid", "covered_long_line": "valid", "covered_bad_expression": "valid",
               "covered_unreadable": "valid", "covered_vanishes": "valid", "licenseref_not_utf8": "valid", "license_dir_is_file": "grey",
-              "template_bad_syntax": "grey", "dot_license_not_utf8": "valid", "licenses_same_identifier": "invalid"}
+              "template_bad_syntax": "grey", "dot_license_not_utf8": "valid", "licenses_same_identifier": "invalid",
+              "dep5_and_nested_toml": "invalid"}
     for o, cls in others.items():
         cmds = list(all_cmds) + (["convert-dep5"] if o.startswith("dep5") else [])
         if o in ("covered_unreadable", "covered_vanishes"):
